@@ -2,7 +2,7 @@
    Print Assumptions.  Costs are integers (dyadic floats scaled by 2^30; 2^-26 is 16). *)
 From Coq Require Import ZArith List Bool.
 From Centro Require Import Base.Sx Model.Lapjv Spec.Lapjv Proofs.LapjvCert Proofs.LapjvRefute Proofs.LapjvTrack
-  Proofs.LapjvPhases Proofs.LapjvAbstract Proofs.LapjvGrid Proofs.LapjvArr Proofs.LapjvRows Proofs.LapjvTrackCost.
+  Proofs.LapjvPhases Proofs.LapjvAbstract Proofs.LapjvGrid Proofs.LapjvArr Proofs.LapjvRows Proofs.LapjvTrackCost Proofs.LapjvRt Proofs.LapjvHall Proofs.LapjvBsearch Proofs.LapjvTrackLink.
 Import ListNotations.
 Open Scope Z_scope.
 
@@ -188,3 +188,95 @@ Theorem C01_match_cost_pos : forall (P : Type) (dist : P -> P -> QArith_base.Q),
   QArith_base.Qlt (QArith_base.inject_Z 0) (match_cost P dist scale weight p1 a1 p2 a2).
 Proof. exact match_cost_pos. Qed.
 Print Assumptions C01_match_cost_pos.
+
+(* phase 2 on the array model, Fixed variant (_lapjv.pyx:81-98 with the row offset): reduction transfer keeps Inv.
+   Bookkeeping proved in Proofs.LapjvRt: rows still to process have u = 0 and reduced cost 0 on their column,
+   x0 is injective on assigned columns, all reduced costs stay non-negative. *)
+Theorem C01_phase12_inv : forall n tri,
+  (forall t, In t tri -> (t_i t < n)%nat /\ (t_j t < n)%nat) ->
+  (forall j, (j < n)%nat -> exists t, In t tri /\ t_j t = j) ->
+  let rows := rows_of n tri in
+  let x0 := x_init n (min_i n tri) in
+  let uv := reduction_transfer Fixed n rows (jflat_of rows) x0 (one_rows n (min_i n tri)) (repeat (Fin 0) n) (v_init n tri) in
+  Inv n rows x0 (y_init n x0) (snd uv) /\ Pending n (y_init n x0) (free_rows n (min_i n tri)).
+Proof. exact phase12_inv. Qed.
+Print Assumptions C01_phase12_inv.
+
+(* phases 1-3 exactly as lapjv() chains them for (Fixed, eps 0 at :202, any eps >= 0 at :208, any k, any fuel):
+   whenever augmenting row reduction returns, the state handed to augment satisfies Inv and the list of free rows is
+   duplicate-free and genuinely unassigned.  (Still restricted to >= 2 candidates per row.) *)
+Theorem C01_phases123_inv : forall n tri,
+  (forall t, In t tri -> (t_i t < n)%nat /\ (t_j t < n)%nat) ->
+  NoDup (map fst tri) ->
+  (forall j, (j < n)%nat -> exists t, In t tri /\ t_j t = j) ->
+  (forall i, (i < n)%nat -> (2 <= length (filter (fun t => (t_i t =? i)%nat) tri))%nat) ->
+  forall epsr fuel k x y v ii, 0 <= epsr ->
+  let rows := rows_of n tri in
+  let mi := min_i n tri in
+  let x0 := x_init n mi in
+  let y0 := y_init n x0 in
+  let uv := reduction_transfer Fixed n rows (jflat_of rows) x0 (one_rows n mi) (repeat (Fin 0) n) (v_init n tri) in
+  match free_rows n mi with
+  | [] => Some (x0, y0, snd uv, free_rows n mi)
+  | _ => arr_passes k fuel (Fin 0) (Fin epsr) n rows (x0, y0, snd uv, free_rows n mi)
+  end = Some (x, y, v, ii) ->
+  Inv n rows x y v /\ Pending n y ii.
+Proof. exact phases123_inv. Qed.
+Print Assumptions C01_phases123_inv.
+
+(* Hall-type block (needed for the -inf price case of phase 3, which is NOT yet connected): m+1 rows whose
+   candidates all lie within m columns exclude a perfect matching. *)
+Theorem C01_hall_block : forall n tri (L C : list nat),
+  NoDup L -> (forall i, In i L -> (i < n)%nat) ->
+  (forall i j c, In i L -> cost tri i j = Some c -> In j C) ->
+  (length C < length L)%nat -> ~ has_PM n tri.
+Proof. exact hall_block. Qed.
+Print Assumptions C01_hall_block.
+
+(* phase 4 pieces: the model's transcription of bsearch (_lapjv.pyx:470-482) finds every value present in a strictly
+   increasing array within the fuel the model gives it, and on the model's own rows (sorted by lexsort((j, i)), no pair
+   listed twice) the cost lookup of a listed column never takes the `None` exit. *)
+Theorem C01_bsearch_found : forall js val, mono js -> forall fuel lo hi k,
+  0 <= lo -> hi < Z.of_nat (length js) -> lo <= Z.of_nat k <= hi -> nth k js 0%nat = val ->
+  (Z.to_nat (hi - lo + 1) <= fuel)%nat ->
+  exists k', bsearch fuel js lo hi val = Some k' /\ nth k' js 0%nat = val /\ lo <= Z.of_nat k' <= hi.
+Proof. exact bsearch_found. Qed.
+Print Assumptions C01_bsearch_found.
+
+Theorem C01_cost_at_listed : forall n tri i j c,
+  NoDup (map fst tri) -> In (j, c) (row (rows_of n tri) i) ->
+  exists c', cost_at (rowget (rows_of n tri) i) j = Some c' /\ In (j, c') (row (rows_of n tri) i).
+Proof. exact cost_at_listed. Qed.
+Print Assumptions C01_cost_at_listed.
+
+(* the slackness loop that ends augment (:455-459) is defined (no bsearch `None`) whenever every x[i] is a listed
+   column of row i - in particular for every perfect matching over listed pairs *)
+Theorem C01_final_u_defined : forall n tri v, NoDup (map fst tri) -> forall x,
+  length x = n -> (forall i, (i < n)%nat -> exists c, In (nth i x n, c) (row (rows_of n tri) i)) ->
+  exists u, final_u (rows_of n tri) x v = Some u /\ length u = n.
+Proof. exact final_u_defined. Qed.
+Print Assumptions C01_final_u_defined.
+
+(* tracker identity with the scaling link: integer costs z = q * s (s > 0) of rational costs q that vanish on the
+   diagonal, are non-negative, and positive off the diagonal in the m object rows; and the match cost of
+   Proofs.LapjvTrackCost has exactly these sign properties (C01_match_cost_block). *)
+From Coq Require Import QArith.
+Theorem C01_tracker_identity_scaled : forall n m tri (s : Z) (qc : nat -> nat -> Q),
+  (m <= n)%nat -> (0 < s)%Z ->
+  (forall t, In t tri -> (inject_Z (t_c t) == qc (t_i t) (t_j t) * inject_Z s)%Q) ->
+  (forall i, (i < n)%nat -> cost tri i i <> None) ->
+  (forall i j, (0 <= qc i j)%Q) ->
+  (forall i, (i < n)%nat -> (qc i i == 0)%Q) ->
+  (forall i j, (i < m)%nat -> j <> i -> (0 < qc i j)%Q) ->
+  forall x, Optimal n tri x -> forall i, (i < m)%nat -> col x i = i.
+Proof. exact tracker_identity_scaled. Qed.
+Print Assumptions C01_tracker_identity_scaled.
+
+Theorem C01_match_cost_block : forall (P : Type) (dist : P -> P -> Q) (scale weight : Q) (cen : nat -> P) (area : nat -> Q),
+  (forall p q, (0 <= dist p q)%Q) -> (forall p, (dist p p == 0)%Q) -> (forall p q, (dist p q == 0)%Q -> p = q) ->
+  (0 < scale)%Q -> (0 < weight)%Q -> (forall i, (0 < area i)%Q) ->
+  (forall i j, i <> j -> cen i <> cen j \/ ~ (area i == area j)%Q) ->
+  let qc := fun i j => match_cost P dist scale weight (cen i) (area i) (cen j) (area j) in
+  (forall i j, (0 <= qc i j)%Q) /\ (forall i, (qc i i == 0)%Q) /\ (forall i j, j <> i -> (0 < qc i j)%Q).
+Proof. exact match_cost_block. Qed.
+Print Assumptions C01_match_cost_block.
